@@ -16,6 +16,7 @@ EXPLANATION = (
     "Also decided: removal in the error handler cannot raise; single results pass _streamResponse; the client tests the stream flag before the accompanying exception; housekeeping deletes only after a fresh look-up; the out-of-sync close uses a copy of the stream's proxy; the stream table is per daemon. "
     "virtual time."
     'Also decided (round 8): PYRO_* environment settings (ITER_STREAM_LINGER=0, ITER_STREAMING=off) are stored as converted, not through a truthiness fallback. '
+    "Also decided (round 10): get_next_stream_item returns only what this call's next() produced and refuses only ids that are not in the table; a Daemon that was constructed is not in the shutting-down state. "
     'Also decided (round 9): One __next__ sends one item fetch and communication errors are not retried; nothing in the housekeeping pass can raise (no calls into user iterators). '
     "Not decided (most of the property): item order, no loss/duplication, interleavings of next/close/reconnect/housekeeping, "
 )
@@ -330,6 +331,24 @@ def run(ctx, R, tier):
             nx.loc(fetches[0]) if fetches else nx.loc(),
             "the item fetch is %s: when a reply is lost after the server advanced its iterator, the retry returns the FOLLOWING item and one item silently disappears from the stream"
             % ("inside a loop" if in_loop else ("under a handler that swallows communication errors" if retry_h else "sent %d times" % len(fetches))))
+    # `for x in proxy`: the remote __iter__ stream is iterated OUTSIDE the handler that selects the index-based fall-back. That handler (AttributeError: "the remote object
+    # has no __iter__") around the iteration itself swallows an AttributeError the remote generator raises midway and restarts from index 0 - items repeated, the
+    # generator's exception lost
+    pit = ctx.fn("Pyro5.client.Proxy.__iter__")
+    yfs = [n for n in walk_no_nested(pit.node) if isinstance(n, ast.YieldFrom)]
+    remote_names = {t.id for st, t, k in stores_in(pit.node) if k == "assign" and isinstance(t, ast.Name) and "'__iter__'" in unparse(st.value, 200)}
+    remote_yf = [y for y in yfs if "'__iter__'" in unparse(y.value, 200) or (isinstance(y.value, ast.Name) and y.value.id in remote_names)]
+    if not remote_yf:
+        raise AnalysisError("Proxy.__iter__: the delegation to the remote __iter__ stream vanished")
+    covered = []
+    for y in remote_yf:
+        for t, part in enclosing_trys(y, pit.node):
+            if part == "body" and any(h.type is None or any(x in unparse(h.type) for x in ("AttributeError", "Exception", "BaseException")) for h in t.handlers):
+                covered.append(y)
+    R.check(not covered, "C10-R6", "Proxy.__iter__|remote-stream-iterated-outside-the-fallback-handler", "the items of the remote __iter__ stream are yielded outside the try that selects the index-based fall-back",
+            pit.loc(covered[0]) if covered else pit.loc(),
+            "`%s` runs inside `try ... except AttributeError`: an AttributeError raised by the remote generator after some items is taken for 'no remote __iter__' - the loop "
+            "silently starts over with proxy[0], proxy[1], ...: items are delivered twice and the generator's exception never reaches the caller" % (unparse(covered[0], 70) if covered else ""))
     hk_sites = {g.qualname for g, c in ctx.cg.callers_of("Pyro5.server.Daemon._housekeeping")}
     need = {"Pyro5.svr_threads.Housekeeper.run", "Pyro5.svr_multiplex.SocketServer_Multiplex.events", "Pyro5.svr_multiplex.SocketServer_Multiplex.loop",
             "Pyro5.svr_existingconn.SocketServer_ExistingConnection.loop"}
